@@ -530,4 +530,6 @@ def main(tier):
     rep.attempt(c05.check_hashfill_bound, rep, mod)      # a word hashed past the dictionary contains whatever the buffer held before
     rep.attempt(provenance.check_undef, rep, None, 'ALL', 130)
     rep.attempt(check_hash_input, rep)
+    import copypair
+    rep.attempt(copypair.check, rep, 46)                 # a destination byte of the copying CRC kernels that is not stored at its own offset keeps what the buffer held before
     return rep.finish()
